@@ -158,7 +158,16 @@ func runStop(c *core.Ctx, s *run.Session, l *hist.Layout, start hist.Pos, scn st
 	case "read-error":
 		ob := &attemptObs{Spec: spec, Reader: "unknown", Handler: "fast", Reached: true}
 		s.M.SetScripts(&sim.Script{End: sim.EndIdle})
-		ob.Res = s.Attempt(run.NoFaults(), &xport.Options{FailReadAt: int64(120 + spec.At)}, maxWait)
+		// the read error must fall inside the bytes the master will send
+		// (handshake + OK + OK are about 100 bytes)
+		total := 0
+		for _, pk := range sim.Plan(l, start) {
+			total += len(pk.Bytes) + 5
+		}
+		if total < 1 {
+			total = 1
+		}
+		ob.Res = s.Attempt(run.NoFaults(), &xport.Options{FailReadAt: int64(100 + spec.At%total)}, maxWait)
 		finishObs(s, ob, o)
 		return ob
 	}
@@ -205,7 +214,7 @@ func checkC05(c *core.Ctx) {
 	c.SetRule("per small generated history: every packet index x {fin, rst, err, eof, zero-length, out-of-sequence, short, cut, injected unsupported/invalid event, master-side cancel} x pacing {far-ahead, lock-step} x handler {fast, slow}; cancel while the master withholds packet k (reader waiting for the network); cancel while the handler is blocked at transaction j with the master far ahead (reader holding an event); handler error / in-handler cancel at every transaction; mapper failures; 8 kinds of attempts that fail before a connection or reader exists; clean EOF; transport read error — each repeated, in -race builds under GOMAXPROCS 1/2/4/16. Monitors: quiescent-stuck rule on Stream, on the first and second Error(), leftover library goroutines, client socket closed, handler guard (in-flight counter, streamActive), race log. distinct by (history, spec, rep, pass); non-trivial iff the scripted stop was reached")
 	c.Assume("Error() is only called after Stream returned")
 	c.Assume("race freedom = no report from the Go race detector on these executions")
-	nh := c.N(3, 24)
+	nh := c.N(3, 30)
 	reps := c.N(2, 6)
 	if c.Replay != "" {
 		var w struct {
